@@ -8,6 +8,27 @@ VERIF = os.path.dirname(os.path.dirname(os.path.abspath(__file__)))
 
 # property -> (technique, clause decided, trusted base / what is not decided, DESIGN ref)
 CLAIMS = {
+    "C06": ("whole-program call-graph reachability (CHA) from equality / hashing / canonicalisation / diffing entry "
+            "points + use classification of every source-location value inside the closure",
+            "in everything reachable from equals, operator==, the hash functors, canonicalisation and compute_diff a "
+            "source location is only copied, never compared, branched on, ordered or hashed (one listed kernel-only "
+            "exception): shifting lines or moving a definition between files cannot change equality or the diff",
+            "other neutral edits (TU layout, declaration order, DIE de-duplication) are runtime",
+            "§3 R-NOLOC; §4 C06"),
+    "C12": ("non-interference by whole-program call-graph reachability (CHA) with a positive control",
+            "no function reachable from the verdict entry points (compute_diff, has_*changes, filtering, "
+            "suppression, stats) reads a presentation flag; corpus path / architecture are read there only by "
+            "suppression matching, a diagnostic string and the architecture equality itself",
+            "CHA over-approximates virtual dispatch; unresolved indirect calls in the closure are listed in the evidence",
+            "§3 R-PRESENT; §4 C12"),
+    "C27": ("AST rules on the pattern generator: insertion-chain operands, literal value of the metacharacter set, "
+            "control dependence of the backslash insertion, def-use of the generated pattern",
+            "every whitelisted name reaches the generated pattern only through regex::escape, the escaped set covers "
+            "every POSIX ERE metacharacter, the pattern is anchored, and the whitelist suppressions take their regex "
+            "only from generate_from_strings",
+            "which declarations the compiled pattern then keeps or drops (runtime); user --keep/--drop patterns are "
+            "compiled unmodified by design",
+            "§3 R-RXESC; §4 C27"),
     "C01": ("sibling-agreement rule: multisets of configuration events (context creation, options, suppressions, "
             "loader calls, post-load adjustments) per operand, attributed by operand name or enclosing region (AST)",
             "in abidiff, abipkgdiff, abicompat and kmidiff the two operands of a comparison are read under the same "
